@@ -114,6 +114,18 @@ def handle20 (id : Nat) (hdr : List Sexp) (body : List Sexp) : String :=
     | _, _ => s!"R {id} CORR=diff SPEC=ok SPECM=ok | unparsable cfg/tops"
   | _ => s!"R {id} CORR=diff SPEC=ok SPECM=ok | unparsable header"
 
+/-- mode `coredump` (debugging aid): print the model's trace for the implementation's flush choices -/
+def handleDump (id : Nat) (hdr : List Sexp) (body : List Sexp) : String :=
+  match hdr with
+  | [.atom _, c, t] =>
+    match cfg? c, tops? t with
+    | some cfg, some tops =>
+      let impl := body.map event?
+      let s := runFuel (200 * impl.length + 100000) (initState cfg tops (choicesOf impl))
+      "\n".intercalate ((s.trace.reverse.map eventStr) ++ [s!"R {id} CORR=ok SPEC=ok SPECM=ok | stuck={s.stuck}"])
+    | _, _ => s!"R {id} CORR=diff SPEC=ok SPECM=ok | unparsable"
+  | _ => s!"R {id} CORR=diff SPEC=ok SPECM=ok | unparsable"
+
 /-- mode `coreinv`: model only; every candidate invariant after every step (default flush choices) -/
 def handleInv (id : Nat) (hdr : List Sexp) (_body : List Sexp) : String :=
   match hdr with
